@@ -113,7 +113,7 @@ def _args(fn, expected):
 
 def _raise_term(s, where):
     """`raise Cls(<message>)` -> the Lean error; the message may only read (names, attributes, constants, `%`, len)"""
-    e = s.exc
+    e = getattr(s, "exc", None)
     if not isinstance(s, ast.Raise) or s.cause is not None or not isinstance(e, ast.Call) or len(e.args) != 1 or e.keywords:
         raise Unsupported(f"{where}: `{ast.unparse(s)[:80]}` (only `raise Cls(message)`)")
     cls = pygen._dotted(e.func)
